@@ -300,6 +300,12 @@ func ruleSMLTables(p *Prog, r *Report) {
 		widths     []int64
 		bitArg     int
 	}{{"parseInt", "ParseInt", []int64{1, 2, 4, 8}, 2}, {"parseUint", "ParseUint", []int64{1, 2, 4, 8}, 2}, {"parseFloat", "ParseFloat", []int64{4, 8}, 1}} {
+		if p.Func("sml", "(*parser)."+h.fn) == nil {
+			// the per-type parser has another name or shape (merged, split):
+			// decide from the dispatcher, keyword by keyword
+			bitSizeFromDispatcher(p, r, rule, h.fn, h.callee, h.widths, h.bitArg)
+			continue
+		}
 		f := p.MustFunc(r, "sml", "(*parser)."+h.fn)
 		if f == nil {
 			continue
@@ -574,5 +580,104 @@ func literalByEvaluation(p *Prog, r *Report, rule, key string, fn *ssa.Function,
 		r.unk(rule, key, pos, strings.Join(firstN(undec, 4), "; "))
 	default:
 		r.ok(rule, key, pos, fmt.Sprintf("evaluated on %d number tokens around the bounds and the byte/word boundaries, in decimal, hexadecimal and signed notation: exactly the values outside [%d, %d] are reported, the others reach %s unchanged", len(lits), lo, hi, factory))
+	}
+}
+
+// kwCall is a call observed while the item dispatcher is evaluated for one keyword.
+type kwCall struct {
+	callee string // "strconv.ParseInt", "ast.NewIntNode", ...
+	args   []Val
+	in     string // the function the call stands in
+}
+
+// keywordCalls evaluates (*parser).parseDataItem with the accepted item-type
+// token bound to the keyword and everything else unknown, and lists the
+// strconv and factory calls reached below it - wherever the per-type parsing
+// code lives. ok is false when the dispatcher or its token cannot be bound.
+func keywordCalls(p *Prog, keyword string) (calls []kwCall, ok bool) {
+	fn := p.Func("sml", "(*parser).parseDataItem")
+	accept := p.Func("sml", "(*parser).accept")
+	ttType, ok1 := smlConst(p, "tokenTypeDataItemType")
+	if fn == nil || accept == nil || !ok1 {
+		return nil, false
+	}
+	in := NewInterp(p)
+	bound := false
+	tok := Val{K: KAgg, S: "typetok", Agg: map[string]cell{".typ": {V: int64Val(ttType)}, ".val": {V: strVal(keyword)}}}
+	in.Bind = func(v ssa.Value, fr *frame) (Val, bool) {
+		c, isCall := v.(*ssa.Call)
+		if !isCall || c.Common().StaticCallee() != accept || len(c.Common().Args) < 2 {
+			return Val{}, false
+		}
+		if k, isConst := c.Common().Args[1].(*ssa.Const); isConst {
+			if cv := constVal(k); cv.K == KInt && cv.I.Int64() == ttType {
+				bound = true
+				return Val{K: KTuple, Elems: []Val{tok, boolVal(true)}}, true
+			}
+		}
+		return Val{}, false
+	}
+	in.OnCall = func(call *ssa.Call, callee *ssa.Function, a []Val, fr *frame) {
+		if callee.Pkg == nil {
+			return
+		}
+		switch {
+		case callee.Pkg.Pkg.Path() == "strconv" && (strings.HasPrefix(callee.Name(), "Parse") || callee.Name() == "Atoi"):
+			calls = append(calls, kwCall{"strconv." + callee.Name(), append([]Val{}, a...), fr.fn.Name()})
+		case isFactory(callee):
+			calls = append(calls, kwCall{"ast." + callee.Name(), append([]Val{}, a...), fr.fn.Name()})
+		}
+	}
+	in.Run(fn, defaultArgs(fn), nil)
+	if !bound || len(in.Stuck) > 0 {
+		return nil, false
+	}
+	return calls, true
+}
+
+// bitSizeFromDispatcher decides the bitSize obligations of one numeric family
+// (I, U or F) from the calls the dispatcher reaches for each of its keywords.
+func bitSizeFromDispatcher(p *Prog, r *Report, rule, family, callee string, widths []int64, bitArg int) {
+	prefix := map[string]string{"parseInt": "I", "parseUint": "U", "parseFloat": "F"}[family]
+	pos := ""
+	if fn := p.Func("sml", "(*parser).parseDataItem"); fn != nil {
+		pos = p.Pos(fn.Pos())
+	}
+	for _, k := range widths {
+		key := fmt.Sprintf("%s:sml.%s:bitSize:width=%d", rule, family, k)
+		calls, ok := keywordCalls(p, fmt.Sprintf("%s%d", prefix, k))
+		if !ok {
+			r.unk(rule, key, pos, "neither (*parser)."+family+" nor an evaluable dispatcher (*parser).parseDataItem found")
+			continue
+		}
+		var probs []string
+		seen, facSeen := false, false
+		for _, c := range calls {
+			switch {
+			case c.in == "parseDataItemSize":
+			case c.callee == "strconv."+callee:
+				seen = true
+				a := c.args
+				if !(len(a) > bitArg && a[bitArg].K == KInt && a[bitArg].I.Int64() == 8*k) {
+					probs = append(probs, fmt.Sprintf("strconv.%s is called with bitSize %s for a %d-byte item (must be %d)", callee, a[bitArg], k, 8*k))
+				}
+				if bitArg == 2 && !(a[1].K == KInt && a[1].I.Sign() == 0) {
+					probs = append(probs, fmt.Sprintf("strconv.%s is called with base %s: the 0x/0b/0o prefixes require base 0", callee, a[1]))
+				}
+			case strings.HasPrefix(c.callee, "ast."):
+				facSeen = true
+				if !(len(c.args) > 0 && c.args[0].K == KInt && c.args[0].I.Int64() == k) && c.callee != "ast.NewEmptyItemNode" {
+					probs = append(probs, fmt.Sprintf("%s is called with byteSize %s for a %d-byte item", c.callee, c.args[0], k))
+				}
+			}
+		}
+		switch {
+		case !seen || !facSeen:
+			r.unk(rule, key, pos, "the strconv call or the factory call was not reached from the dispatcher")
+		case len(probs) > 0:
+			r.bad(rule, key, pos, strings.Join(uniq(probs), "; "))
+		default:
+			r.ok(rule, key, pos, fmt.Sprintf("evaluated from the dispatcher for the keyword %s%d: numbers are read with bitSize %d and the node is built with byteSize %d", prefix, k, 8*k, k))
+		}
 	}
 }
